@@ -178,6 +178,24 @@ def run_seq(c):
             elif st['op'] == 'function_in_place':
                 cur['comps'][st['i']] = list(st['comp'])
                 wf.functions[st['i']] = Function(pointer=mk(st['i'], st['comp']))
+            elif st['op'] in ('rejected_pointer', 'rejected_list'):
+                # a user's mistake, answered by an exception and dropped: whether it IS rejected is C14's subject; when it is, the
+                # weighted function must still be the sum over the functions and weights it had
+                try:
+                    if st['op'] == 'rejected_pointer':
+                        wf.functions[st['i']].pointer = (lambda a, b: 0.0) if st.get('bad') == 'lambda2' else 3
+                    elif st.get('bad') == 'functions':
+                        wf.functions = tuple(wf.functions)
+                    else:
+                        wf.weights = tuple(wf.weights)
+                    accepted = True
+                except Exception:  # noqa: BLE001
+                    accepted = False
+                if accepted:
+                    o = dict(cur, comps=[list(t) for t in cur['comps']], ws=list(cur['ws']), **base)
+                    o.update({'raised': 'invalid assignment accepted (C14)', 'step': st['op']})
+                    obs.append(o)
+                    break
             err = None
         except Exception as ex:  # noqa: BLE001
             err = type(ex).__name__ + ': ' + str(ex)[:200]
@@ -365,6 +383,20 @@ def gen_seqs():
             else:
                 c['steps'].append({'op': op, 'i': r.randrange(k), 'comp': comp()})
         seqs.append(c)
+    # rejected assignments in the middle of a sequence (generated after the others: the earlier sequences keep their random stream)
+    for s in range(8 if hlib.QUICK else 60):
+        k = r.randint(1, 4)
+        nv, nd = r.randint(1, 3), r.randint(1, 2)
+        nx = nv * nd
+        c = {'comps': [[r.random() < 0.3, [r.randint(-50, 50) for _ in range(nx)], r.randint(-1000, 1000)] for _ in range(k)],
+             'ws': [r.randint(-5000, 5000) or 3 for _ in range(k)], 'wtypes': [r.choice(['int', 'float', 'np']) for _ in range(k)],
+             'x': [r.randint(-60, 60) for _ in range(nx)], 'shape': [nv, nd], 'steps': []}
+        if s % 4 < 2:
+            c['steps'].append({'op': 'rejected_pointer', 'i': r.randrange(k), 'bad': ['lambda2', 'int'][s % 2]})
+        else:
+            c['steps'].append({'op': 'rejected_list', 'bad': ['functions', 'weights'][s % 2]})
+        c['steps'].append({'op': 'weight_in_place', 'i': r.randrange(k), 'w': r.randint(-99, 99) or 5})
+        seqs.append(c)
     return seqs
 
 
@@ -461,11 +493,16 @@ def optimizer_runs():
     from opytimizer import Opytimizer
     from opytimizer.spaces.search import SearchSpace
     import importlib
-    names = [('pso', 'PSO'), ('bha', 'BHA')] if hlib.QUICK else \
-        [('pso', 'PSO'), ('bha', 'BHA'), ('sa', 'SA'), ('hc', 'HC'), ('sca', 'SCA'), ('fa', 'FA'), ('aiwpso', 'AIWPSO')]
+    # every bundled optimizer (GP on a tree space), plus variants that reach rarely executed evaluation sites
+    # (ABC's scout phase needs a food source to exceed its trial limit)
+    names = [('pso', 'PSO', {}), ('bha', 'BHA', {}), ('abc', 'ABC', {}), ('abc', 'ABC', {'n_trials': 1}), ('aiwpso', 'AIWPSO', {}),
+             ('ba', 'BA', {}), ('cs', 'CS', {}), ('fa', 'FA', {}), ('fpa', 'FPA', {}), ('gp', 'GP', {}), ('gsa', 'GSA', {}),
+             ('hc', 'HC', {}), ('hs', 'HS', {}), ('ihs', 'IHS', {}), ('rpso', 'RPSO', {}), ('sa', 'SA', {}), ('sca', 'SCA', {}),
+             ('wca', 'WCA', {}), ('cs', 'CS', {'p': 0.9}), ('fpa', 'FPA', {'p': 0.1}), ('hs', 'HS', {'HMCR': 0.1}),
+             ('ba', 'BA', {'A': 0.9, 'r': 0.1})]
     r = hlib.rng('c16opt')
     out = []
-    for mod, cls in names:
+    for mod, cls, hp in names:
         for rep in range(1 if hlib.QUICK else 3):
             seed = r.randint(0, 2 ** 31 - 1)
             ws = [r.choice([0.0, -1.5, 2.0, 1e3, 0.25]) for _ in range(3)]
@@ -494,15 +531,21 @@ def optimizer_runs():
             def run(fn):
                 np.random.seed(seed)
                 Opt = getattr(importlib.import_module('opytimizer.optimizers.' + mod), cls)
-                space = SearchSpace(n_agents=4, n_variables=2, n_iterations=6, lower_bound=[-5, -5], upper_bound=[5, 5])
-                h = Opytimizer(space=space, optimizer=Opt(), function=fn).start()
+                if cls == 'GP':
+                    from opytimizer.spaces.tree import TreeSpace
+                    space = TreeSpace(n_trees=6, n_terminals=2, n_variables=2, n_iterations=4, min_depth=1, max_depth=3,
+                                      functions=['SUM', 'SUB', 'MUL', 'DIV'], lower_bound=[-5, -5], upper_bound=[5, 5])
+                else:
+                    space = SearchSpace(n_agents=6, n_variables=2, n_iterations=6, lower_bound=[-5, -5], upper_bound=[5, 5])
+                with np.errstate(all='ignore'):
+                    h = Opytimizer(space=space, optimizer=Opt(hyperparams=dict(hp)), function=fn).start()
                 return [[hlib.key(v) for row in p for v in row] + [hlib.key(fit)] for (p, fit) in h.best_agent]
 
-            rec = {'optimizer': cls, 'seed': seed, 'weights': ws, 'oracle': None}
+            rec = {'optimizer': cls, 'hyperparams': hp, 'seed': seed, 'weights': ws, 'oracle': None}
             try:
                 ref = run(Function(pointer=plain))
             except Exception as ex:  # noqa: BLE001
-                rec['skipped'] = 'plain Function run raised %s' % type(ex).__name__
+                rec['skipped'] = 'plain Function run raised %s: %s' % (type(ex).__name__, str(ex)[:120])
                 out.append(rec)
                 continue
             try:
